@@ -9,7 +9,7 @@ cache = {}
 
 def run(base, patch):
     env = dict(os.environ, MAXL="60")
-    p = subprocess.run(["/verif/engine/try_seed_at.sh", base, patch], capture_output=True, text=True, env=env)
+    p = subprocess.run(["/verif/engine/try_patch_fast.sh", base, patch], capture_output=True, text=True, env=env)
     keys, cur = {}, None
     for line in p.stdout.splitlines():
         m = re.match(r"== (C\d+): (\d+) violation", line)
